@@ -194,6 +194,8 @@ impl<'a> Run<'a> {
         if let Some(rrdp_uri) = ca.rpki_notify() {
             if let Some(ref rrdp) = self.rrdp {
                 let repo = rrdp.load_repository(rrdp_uri)?;
+                #[cfg(routinator_verif)]
+                let repo = verif_forced_outcome(repo);
                 match repo {
                     rrdp::LoadResult::Unavailable => {
                         // Update failed and no local copy at all. Both
@@ -356,3 +358,47 @@ impl Cleanup {
     }
 }
 
+
+
+//------------ Verification hooks (C29) --------------------------------------
+
+/// The RRDP outcome to be substituted and how often one was substituted.
+#[cfg(routinator_verif)]
+static VERIF_OUTCOME: std::sync::Mutex<(Option<u8>, u64)>
+    = std::sync::Mutex::new((None, 0));
+
+/// Replaces the outcome of the RRDP update by a forced one if the harness
+/// has set one (0 = unavailable, 1 = stale, 2 = current, 3 = updated with
+/// an empty repository). Otherwise the real outcome is passed through.
+#[cfg(routinator_verif)]
+fn verif_forced_outcome(real: rrdp::LoadResult) -> rrdp::LoadResult {
+    let mut forced = VERIF_OUTCOME.lock().unwrap();
+    let res = match forced.0 {
+        Some(0) => rrdp::LoadResult::Unavailable,
+        Some(1) => rrdp::LoadResult::Stale,
+        Some(2) => rrdp::LoadResult::Current,
+        Some(3) => {
+            rrdp::LoadResult::Updated(
+                rrdp::ReadRepository::verif_empty().expect(
+                    "cannot create empty RRDP archive"
+                )
+            )
+        }
+        _ => return real,
+    };
+    forced.1 += 1;
+    res
+}
+
+#[cfg(routinator_verif)]
+impl Config {
+    /// Sets or clears the RRDP outcome `Run::repository` is to see.
+    pub fn verif_set_rrdp_outcome(outcome: Option<u8>) {
+        VERIF_OUTCOME.lock().unwrap().0 = outcome;
+    }
+
+    /// Returns how often an outcome has been substituted so far.
+    pub fn verif_rrdp_outcome_uses() -> u64 {
+        VERIF_OUTCOME.lock().unwrap().1
+    }
+}
